@@ -176,6 +176,10 @@ class Translator:
         self.log = []
         self.item_fields = None   # flat model of cbor_item_t: [(flat name, ctype, C access path)]  (build_item_model)
         self.item_paths = {}      # C access path (tuple of member names) -> (flat name, ctype, union member or None)
+        self.ser_mode = False     # leaf serializers (SER_JOBS): a writable byte pointer next to an item is the OUTPUT buffer (threaded), the item is read-only
+        self.assume = []          # stated assumptions of the function being translated (SER_ASSUME): branches pruned under them
+        self.assume_hits = {}
+        self.fndecls = {}         # every function definition of the indexed TUs (for inlining pointer-returning handle getters)
 
     # ---------------------------------------------------------------- declarations from a TU
     def index_tu(self, tu):
@@ -314,7 +318,7 @@ class Translator:
             elif t == 'ptr':
                 q = p_['type'].get('qualType', '')
                 has_item = any(self.is_item_param(x) for x in decl.get('inner', []) if x['kind'] == 'ParmVarDecl')
-                handle = has_item and not ('const' in q or q == 'cbor_data')      # same rule as function1
+                handle = has_item and not ('const' in q or q == 'cbor_data') and not self.ser_mode      # same rule as function1
                 ps.append('(%s : Array UInt8)' % p_['name'] if handle else '(%s : Array UInt8) (%s_off : Nat)' % (p_['name'], p_['name']))
             elif t in LEAN_T and t != 'unit': ps.append('(%s : %s)' % (p_['name'], LEAN_T[t]))
             else: raise Unsupported('parameter type ' + t)
@@ -593,6 +597,10 @@ class Translator:
                     n = s['referencedDecl']['name']
                     if n in st.structs: return V(n, 'sptr:local')
                     if n in st.vars and st.vars[n].t in BITS: return V(n, 'addr:' + st.vars[n].t)
+                if s['kind'] == 'ArraySubscriptExpr':
+                    # `&E1[E2]` is `E1 + E2` (C11 6.5.3.2p3: neither `&` nor the implied `*` is evaluated): the pointer, no access, no obligation
+                    p = self.expr(s['inner'][0], st, fn); i = self.expr(s['inner'][1], st, fn)
+                    if p.t == 'ptr': return self.padd(p, i, st)
                 raise Unsupported('address-of')
             if op == '-':
                 v = self.expr(sub, st, fn)
@@ -868,6 +876,10 @@ class Translator:
             c = self.cond(args[0], st, fn); st.obl.append(c); return V('()', 'unit')
         if name == '__builtin_unreachable':
             st.obl.append('false'); return V('()', 'unit')
+        if name == 'memcpy' and name not in self.sigs:
+            return self.memcpy(args, st, fn)
+        if name not in self.sigs and name not in self.externs and name in self.fndecls and self.ser_mode:
+            return self.inline_handle(self.fndecls[name], args, st, fn)
         if name in self.externs:
             avs = []
             for a in args:
@@ -939,6 +951,87 @@ class Translator:
             elif c[0] == 'events':
                 st.events.append('SPLICE:' + p)
         return retv
+
+    def memcpy(self, args, st, fn):
+        """`memcpy(dst, src, n)`, result unused.  dst: a position in a store buffer (output parameter); src: a position in the bytes of an item
+        (`item->data`) or in a read-only byte parameter.  The n bytes src[so..so+n) are copied to dst[do..do+n) (C.copyBytes); both ranges must lie
+        inside their arrays (obligations in `.ok`; for n = 0 that still demands pointers into / one past the object, C11 7.24.1p2).  Source and
+        destination are different objects by assumption (output buffer vs. item payload: trusted base; overlapping would be UB for memcpy anyway);
+        a source inside a store buffer is refused."""
+        if len(args) != 3: raise Unsupported('memcpy with %d arguments' % len(args))
+        d = self.expr(args[0], st, fn); s_ = self.expr(args[1], st, fn)
+        n = self.conv(self.expr(args[2], st, fn), 'u64', st)
+        if d.t != 'ptr' or getattr(d, 'item', None) is not None or d.base not in st.bufs:
+            raise Unsupported('memcpy destination is not a store buffer')
+        if s_.t != 'ptr': raise Unsupported('memcpy source is not a byte pointer')
+        if getattr(s_, 'item', None) is not None: src = st.structs[s_.item]['data'].lean
+        elif s_.base in st.bufs: raise Unsupported('memcpy source is a store buffer (possible overlap)')
+        else: src = s_.base
+        cur = st.bufs[d.base]
+        nn = self.nat_of(n, st)
+        st.obl.append('decide (%s + %s ≤ %s.size)' % (d.off, nn, cur))
+        st.obl.append('decide (%s + %s ≤ %s.size)' % (s_.off, nn, src))
+        self.set_bytes(d, '(C.copyBytes %s %s %s %s %s)' % (cur, paren(d.off), src, paren(s_.off), paren(nn)), st, fn)
+        return V('()', 'unit')
+
+    def inline_handle(self, decl, args, st, fn):
+        """call of an untranslated function `unsigned char* f(const cbor_item_t* item)` whose body is assertions followed by `return <pointer>;`
+        (cbor_bytestring_handle, cbor_string_handle): executed in place — its assertions become obligations, its value is the pointer expression
+        (`item->data`: the bytes of the record).  Anything else in the body is outside the subset."""
+        params = [c for c in decl.get('inner', []) if c['kind'] == 'ParmVarDecl']
+        body = [c for c in decl['inner'] if c['kind'] == 'CompoundStmt'][0].get('inner', [])
+        try:
+            rett = ctype(decl['type']['qualType'].split('(')[0].strip())
+        except Unsupported:
+            rett = None
+        if rett != 'ptr' or len(params) != 1 or not self.is_item_param(params[0]) or len(args) != 1 or not body:
+            raise Unsupported('call to untranslated function ' + decl['name'])
+        a = self.expr(args[0], st, fn)
+        if a.t != 'sptr:cbor_item_t' or a.lean not in st.structs or st.structs[a.lean].get('__type') != '__item':
+            raise Unsupported('item argument that is not an item parameter')
+        saved = st.vars
+        st.vars = {params[0]['name']: a}
+        try:
+            def effect(s):
+                k = s['kind']
+                if k == 'NullStmt': return
+                if k == 'CompoundStmt':
+                    for x in s.get('inner', []): effect(x)
+                    return
+                if k == 'DoStmt':
+                    try:
+                        z = self.const_int(s['inner'][1])
+                    except Unsupported:
+                        z = 1
+                    if z != 0: raise Unsupported('do-while loop')
+                    return effect(s['inner'][0])
+                if k in ('CallExpr', 'CStyleCastExpr', 'ParenExpr'):
+                    self.expr(s, st, fn); return
+                raise Unsupported('statement %s in inlined function %s' % (k, decl['name']))
+            for s in body[:-1]: effect(s)
+            last = body[-1]
+            if last['kind'] != 'ReturnStmt' or not last.get('inner'): raise Unsupported('inlined function %s does not end in return' % decl['name'])
+            v = self.expr(last['inner'][0], st, fn)
+        finally:
+            st.vars = saved
+        if v.t != 'ptr' or getattr(v, 'item', None) != a.lean or v.off != '0':
+            raise Unsupported('inlined function %s does not return item->data' % decl['name'])
+        return v
+
+    def assumed(self, kind, e):
+        """the stated assumption (SER_ASSUME) that applies to a branch on expression e: e is, up to parentheses / value-preserving casts, a call
+        of the named function.  Returns the assumption or None."""
+        c = self.strip_all(e)
+        while c['kind'] in ('ImplicitCastExpr', 'ParenExpr') and c.get('inner'): c = c['inner'][0]
+        if c['kind'] != 'CallExpr': return None
+        f = c['inner'][0]
+        while f['kind'] in ('ImplicitCastExpr', 'ParenExpr') and f.get('inner'): f = f['inner'][0]
+        if f['kind'] != 'DeclRefExpr': return None
+        for i, a in enumerate(self.assume):
+            if a[0] == kind and a[1] == f['referencedDecl']['name']:
+                self.assume_hits[i] = self.assume_hits.get(i, 0) + 1
+                return a
+        return None
 
     def struct_lit(self, n, st):
         s = st.structs[n]
@@ -1085,7 +1178,15 @@ class Translator:
             self.expr(s, st, fn)
             return self.flush(st, lambda: k(st))
         if kind == 'IfStmt':
+            asm = self.assumed('if', s['inner'][0])
             c = self.cond(s['inner'][0], st, fn)
+            if asm is not None:
+                # pruning under a stated assumption: the condition (evaluated symbolically — anything cond() cannot evaluate raised Unsupported)
+                # is ASSUMED to have the stated value; the assumption becomes a conjunct of `.ok` on every path from here, and the other
+                # branch is not translated.  Sound: where `.ok` holds the C code takes exactly the branch kept.
+                st.obl.append(c if asm[2] else '(!%s)' % c)
+                taken = s['inner'][1] if asm[2] else (s['inner'][2] if len(s['inner']) > 2 else None)
+                return self.flush(st, lambda: self.stmt(taken, st, fn, k) if taken is not None else k(st))
             def branches():
                 sa, sb = st.copy(), st.copy()
                 ta = self.stmt(s['inner'][1], sa, fn, k)
@@ -1176,8 +1277,17 @@ class Translator:
 
     # ---------------------------------------------------------------- switch
     def switch(self, s, st, fn, k):
+        asm = self.assumed('case', s['inner'][0])
         scrut = self.expr(s['inner'][0], st, fn)
         sw = fn.gensym('sw'); st.pending.append((sw, scrut.lean)); scrut = V(sw, scrut.t)
+        pruned = set()
+        if asm is not None:
+            # stated assumption: the scrutinee is none of these enumerators.  `.ok` gets `sw != v` for each (on every path), and the labels are
+            # dropped from the dispatch (their statements are translated only if another label falls through into them).
+            for en in asm[2]:
+                if en not in self.enums: raise Unsupported('enumerator %s is not declared' % en)
+                pruned.add(self.enums[en])
+                st.obl.append('(%s != %s)' % (scrut.lean, lit(self.enums[en], scrut.t).lean))
         body = s['inner'][-1].get('inner', [])
         groups = []; cur_labels = []; cur_stmts = []
         def unwrap(n):
@@ -1211,7 +1321,7 @@ class Translator:
                 if default_idx: return group_tree(default_idx[0], st.copy())
                 return k(st.copy())
             labels, ss = groups[i]
-            ints = sorted(x for x in labels if x != 'default')
+            ints = sorted(x for x in labels if x != 'default' and x not in pruned)
             if not ints: return build(i + 1)
             t = group_tree(i, st.copy())
             return If(self.range_cond(scrut, ints), t, build(i + 1))
@@ -1359,7 +1469,7 @@ class Translator:
         for p in fn.params:
             t = ctype(p['type']); n = p['name']
             q = p['type'].get('qualType', '')
-            if t == 'ptr' and has_item and not ('const' in q or q == 'cbor_data'):
+            if t == 'ptr' and has_item and not ('const' in q or q == 'cbor_data') and not self.ser_mode:
                 # a writable byte pointer next to an item: the only supported use is `item->data = p` (+ reading through p): the parameter
                 # is the byte sequence p points to; a store through it is outside the subset (it is not a store buffer)
                 lparams.append('(%s : Array UInt8)' % n)
@@ -1403,7 +1513,7 @@ class Translator:
                 raise Unsupported('parameter type ' + t)
         if uses_events: fn.result.append(('events',))
         n_items = sum(1 for _, t in sigparams if t == 'item')
-        if n_items > 1 or (n_items == 1 and (bufparam is not None or any(t.startswith('sref:') for _, t in sigparams))):
+        if n_items > 1 or (n_items == 1 and ((bufparam is not None and not self.ser_mode) or any(t.startswith('sref:') for _, t in sigparams))):
             # value semantics for the record is only exact when nothing else the function can write through may alias it
             raise Unsupported('item parameter together with another item / writable pointer parameter (possible aliasing)')
         # labels: a label in the top-level compound owns the statements from there to the end
@@ -1419,7 +1529,13 @@ class Translator:
         def fallthrough(s2):
             if fn.rett != 'unit': s2.obl.append('false')   # control reaches end of non-void function
             return self.leaf(lit(0, fn.rett) if fn.rett in BITS or fn.rett == 'bool' else None, s2, fn)
+        self.assume_hits = {}
         tree = self.flush(st, lambda: self.stmt(fn.body, st, fn, fallthrough))
+        for i, a in enumerate(self.assume):
+            if i not in self.assume_hits: raise Unsupported('stated assumption on %s matches no branch of the function' % a[1])
+        if self.ser_mode and bufparam is not None and fn.stored:
+            # value semantics for item + output buffer is exact only for a read-only item (the two are different objects by assumption)
+            raise Unsupported('serializer stores into its item')
         def rt(c):
             if c[0] == 'ret': return lean_struct(c[1][7:]) if c[1].startswith('struct:') else LEAN_T[c[1]]
             if c[0] == 'buf': return 'Array UInt8'
@@ -1494,6 +1610,19 @@ ACC2_JOBS = [
     ('src/cbor/strings.c', ['cbor_string_set_handle']),
     ('src/cbor/bytestrings.c', ['cbor_bytestring_set_handle']),
 ]
+# leaf serializers (no child pointer is touched): module `Serializers`.  cbor_serialize_(byte)string and cbor_serialized_size are translated
+# UNDER STATED ASSUMPTIONS (SER_ASSUME): ('if', f, b) = an `if (f(..))` is assumed to evaluate to b; ('case', f, [enumerators]) = a
+# `switch (f(..))` is assumed not to select these labels.  Each assumption is a conjunct of `.ok`; the pruned branch is not translated.
+SER_JOBS = [
+    ('src/cbor/serialization.c', ['cbor_serialize_uint', 'cbor_serialize_negint', 'cbor_serialize_float_ctrl', 'cbor_serialize_bytestring',
+                                  'cbor_serialize_string', 'cbor_serialized_size']),
+]
+SER_ASSUME = {
+    'cbor_serialize_bytestring': [('if', 'cbor_bytestring_is_definite', True)],
+    'cbor_serialize_string': [('if', 'cbor_string_is_definite', True)],
+    'cbor_serialized_size': [('case', 'cbor_typeof', ['CBOR_TYPE_ARRAY', 'CBOR_TYPE_MAP', 'CBOR_TYPE_TAG']),
+                             ('if', 'cbor_bytestring_is_definite', True), ('if', 'cbor_string_is_definite', True)],
+}
 IMPORTS = {'Encoding': ['Encoders'], 'Streaming': ['Loaders', 'Types'], 'Loaders': [], 'Encoders': [],
            'MemoryUtils': [], 'Unicode': ['Types'], 'HeaderSize': []}
 
@@ -1618,6 +1747,31 @@ def generate(repo, outdir, cfgdir):
     chunks += T.out
     chunks.append('end Gen\n')
     files['Accessors2.lean'] = '\n'.join(chunks)
+    # leaf serializers: item (read-only) + output buffer; strings / serialized_size under stated assumptions
+    T.out = []
+    for fs in fnsets.values():
+        for n_, d_ in fs.items(): T.fndecls.setdefault(n_, d_)
+    chunks = [HEADER % ', '.join([f for f, _ in SER_JOBS] + ['src/cbor/bytestrings.c', 'src/cbor/strings.c', 'src/cbor/data.h']),
+              PRELUDE_IMPORTS + 'import Cbor.PreludeMem\nimport Cbor.Gen.MemoryUtils\nimport Cbor.Gen.Encoding\nimport Cbor.Gen.HeaderSize\n'
+              'import Cbor.Gen.Accessors\nimport Cbor.Gen.Accessors2\n',
+              'set_option linter.unusedVariables false\nset_option maxRecDepth 4096\nnamespace Gen\n']
+    T.ser_mode = True
+    for cfile, names in SER_JOBS:
+        for n in names:
+            if n not in fnsets[cfile]: raise Unsupported('%s: no definition of %s' % (cfile, n))
+            n0 = len(T.out)
+            T.assume = SER_ASSUME.get(n, [])
+            try:
+                T.function(fnsets[cfile][n])
+                report['functions'].append(n)
+            except Unsupported as ex:
+                del T.out[n0:]; T.sigs.pop(n, None)          # a stub, as for the accessors above: only the checks that use it fail
+                report['failed'].append('%s: %s: %s' % (cfile, n, ex))
+                T.out.append(T.stub(fnsets[cfile][n], str(ex)))
+    T.ser_mode = False; T.assume = []
+    chunks += T.out
+    chunks.append('end Gen\n')
+    files['Serializers.lean'] = '\n'.join(chunks)
     return files, report
 
 
